@@ -1,3 +1,12 @@
 import Driver.Proto
+import Driver.Rv
 open Lean
-def main : IO Unit := Driver.run (fun _ => Driver.jerr "not implemented")
+
+def handleAll (j : Json) : Json :=
+  match Driver.getStr j "op" with
+  | .ok o =>
+    if o.startsWith "rv." then Driver.Rv.handle j
+    else Driver.jerr s!"unknown op {o}"
+  | .error e => Driver.jerr e
+
+def main : IO Unit := Driver.run handleAll
